@@ -25,7 +25,7 @@ use merklehash::{HashedWrite, MerkleHash};
 use reqwest::{StatusCode, Url};
 use reqwest_middleware::ClientWithMiddleware;
 use tokio::sync::Semaphore;
-use tracing::{debug, error, info, trace};
+use tracing::{debug, error, info, trace, warn};
 use utils::auth::AuthConfig;
 use utils::progress::ProgressUpdater;
 use utils::singleflight::Group;
@@ -565,7 +565,11 @@ pub(crate) async fn get_one_term(
             prefix: PREFIX_DEFAULT.to_string(),
             hash: term.hash.into(),
         };
-        cache.put(&key, &fetch_term.range, &chunk_byte_indices, &data)?;
+        // The cache is an accelerator only: the data is already in hand, so a failure to store it
+        // (e.g. a concurrent eviction removing the key's directory) must not fail the download.
+        if let Err(e) = cache.put(&key, &fetch_term.range, &chunk_byte_indices, &data) {
+            warn!("failed to write fetched range to chunk cache: {e}");
+        }
     }
 
     // if the requested range is smaller than the fetched range, trim it down to the right data
